@@ -323,7 +323,10 @@ class Ctx:
             "wall_s": round(wall, 2),
             "violations": len(self.violations),
         }
-        json.dump(ev, open(os.path.join(VERIF, "evidence", self.pid + ".json"), "w"), indent=1, default=str)
+        # (checks beyond the listed properties - ids that do not begin with C - keep their evidence apart)
+        evdir = os.path.join(VERIF, "evidence") if self.pid.startswith("C") else os.path.join(VERIF, "out", "extra")
+        os.makedirs(evdir, exist_ok=True)
+        json.dump(ev, open(os.path.join(evdir, self.pid + ".json"), "w"), indent=1, default=str)
         print("%s tier=%s seed=%d: states=%d evaluations=%d nontrivial=%d traces_ok=%d violations=%d known=%d wall=%.1fs" % (
             self.pid, self.tier, self.seed, self.states, self.evaluations, len(self.nontrivial), self.traces_ok,
             len(self.violations), sum(v["n"] for v in self.known_hits.values()), wall))
